@@ -81,22 +81,29 @@ func newCountByAccount() countByAccount {
 // P(A | T1 & T2 & ... & Tn) ~ P(A) * P(T1|A) * P(T2|A) * ... * P(Tn|A)
 func (m *Model) Infer(t *syntax.Transaction) {
 	for i := range t.Bookings {
-		credit := t.Bookings[i].Credit.Extract()
-		debit := t.Bookings[i].Debit.Extract()
-		if credit == m.account {
-			t.Bookings[i].Credit = m.inferAccount(t, &t.Bookings[i], debit)
+		b := &t.Bookings[i]
+		if b.Credit.Extract() == m.account {
+			if account, ok := m.inferAccount(t, b, b.Debit.Extract()); ok {
+				b.Credit = account
+			}
 		}
-		if debit == m.account {
-			t.Bookings[i].Debit = m.inferAccount(t, &t.Bookings[i], credit)
+		// The credit account is read again: it may just have been replaced.
+		if b.Debit.Extract() == m.account {
+			if account, ok := m.inferAccount(t, b, b.Credit.Extract()); ok {
+				b.Debit = account
+			}
 		}
 	}
 }
 
-func (m *Model) inferAccount(t *syntax.Transaction, b *syntax.Booking, other string) syntax.Account {
+// inferAccount returns the most likely account, or false if the model has no
+// candidate other than the other account of the booking.
+func (m *Model) inferAccount(t *syntax.Transaction, b *syntax.Booking, other string) (syntax.Account, bool) {
 	var (
 		tokens = tokenize(t, b, other)
 		max    = math.Inf(-1)
 		best   string
+		found  bool
 	)
 	for candidate := range m.countByAccount {
 		if candidate == other {
@@ -106,11 +113,15 @@ func (m *Model) inferAccount(t *syntax.Transaction, b *syntax.Booking, other str
 		if score > max {
 			best = candidate
 			max = score
+			found = true
 		}
+	}
+	if !found {
+		return syntax.Account{}, false
 	}
 	return syntax.Account{
 		Range: syntax.Range{Start: 0, End: len(best), Text: best},
-	}
+	}, true
 }
 
 func (m *Model) scoreCandidate(candidate string, tokens set.Set[token]) float64 {
